@@ -293,6 +293,24 @@ def fullSpec (scn : SysCommon.Scn) (o : OSet) : OSet :=
   if extra.all (·.isEmpty) then o
   else { o with phases := o.phases.zipIdx.map fun (ph, i) => { ph with objs := ph.objs ++ extra.getD i [] } }
 
+/-- Delegated phases are torn down in reverse order too: the phase object of phase i is deleted only
+when no phase object of a LATER phase that is ours exists any more (whether or not the status ever
+got to list it: it exists from the pass that created it). -/
+def judgePhaseObjectOrder (o : OSet) (pre : Sys) (out : StepOut) : Option String := Id.run do
+  for pe in out.phaseEvents do
+    if pe.startsWith "X " then
+      let nm := (((pe.splitOn " ").getD 1 "").splitOn "/").getLastD ""
+      match (o.phases.zipIdx.find? fun (ph, _) => o.name ++ "-" ++ ph.name == nm) with
+      | none => pure ()
+      | some (_, i) =>
+        for (ph, j) in o.phases.zipIdx do
+          if j > i && ph.cls != "" then
+            match pre.w.phases (o.name ++ "-" ++ ph.name) with
+            | some po => if po.ctrlName == o.name && po.ctrlUID == o.uid then
+                return some s!"bad phase-object-deleted-before-later-phase-object-gone {pe} later={po.name}"
+            | none => pure ()
+  return none
+
 def judge (which : Which) (scn : SysCommon.Scn) (cfg : Cfg) (st : JStep) (pre : Sys) (out : StepOut) : Option String := Id.run do
   let some o := (pre.sets st.set).map (fullSpec scn) | return none
   let fs := factsOf cfg o pre
@@ -364,6 +382,10 @@ def judge (which : Which) (scn : SysCommon.Scn) (cfg : Cfg) (st : JStep) (pre : 
         if (pre.w.phases nm).isSome then return some s!"bad phase-object-recreated {pe}"
         if (out.phaseEvents.filter (· == pe)).length > 1 then return some s!"bad phase-object-created-twice {pe}"
       if verb == "X" && !tearing then return some s!"bad phase-object-deleted-during-rollout {pe}"
+    if tearing && !o.finOrphan && quiet st then
+      match judgePhaseObjectOrder o pre out with
+      | some b => return some b
+      | none => pure ()
     for se in out.setEvents do
       if sOk se && hasCond (sConds se) "Available" "True" && quiet st then
         for ph in delegated do
@@ -488,6 +510,9 @@ def judge (which : Which) (scn : SysCommon.Scn) (cfg : Cfg) (st : JStep) (pre : 
           match fs.find? (fun f => f.1 > k && f.2.controlled) with
           | some f => return some s!"bad delete-before-later-phase-gone {e} still-controlled={keyStr f.2.key}"
           | none => pure ()
+    match judgePhaseObjectOrder o pre out with
+    | some b => return some b
+    | none => pure ()
     let released := out.setEvents.any (fun se => se.startsWith s!"F {o.name} - ok") ||
       out.setEvents.any (fun se => sOk se && hasCond (sConds se) "Archived" "True")
     -- (an ObjectSet without the cached finalizer never rolled anything out; a third party stripping
